@@ -19,6 +19,8 @@ pub enum Kind {
     U32,
     Zst,
     Big,
+    /// zero-sized without a destructor (pointer ranges over such elements are empty whatever their count)
+    Uz,
 }
 
 /// What to do with a clone of the iterator
@@ -88,6 +90,33 @@ fn arg(sel: u8, len: usize) -> usize {
 struct M {
     val: u32,
     id: Option<u32>,
+}
+
+/// Zero-sized, no drop glue; prints as `0` so that Debug output can be compared with the model like every other kind
+#[derive(Clone, PartialEq)]
+pub struct Uz;
+impl Debug for Uz {
+    fn fmt(&self, f: &mut std::fmt::Formatter<'_>) -> std::fmt::Result {
+        write!(f, "0")
+    }
+}
+impl Elem for Uz {
+    const KIND: &'static str = "zst_no_drop_glue";
+    const NEEDS_DROP: bool = false;
+    fn mk(_: u32) -> Self {
+        Uz
+    }
+    fn get(&self) -> u32 {
+        0
+    }
+    fn norm(_: u32) -> u32 {
+        0
+    }
+}
+impl IdOf for Uz {
+    fn id_of(&self) -> Option<u32> {
+        None
+    }
 }
 
 trait IdOf {
@@ -495,7 +524,7 @@ fn exec_typed<T: Elem + IdOf + Clone + Debug, N: ArrayLength>(case: &Case, acc: 
     if case.ops.iter().any(|o| matches!(o, Op::Nth(s) | Op::NthBack(s) if *s >= 6)) {
         acc.class("nth_arg_at_or_beyond_len");
     }
-    if T::KIND != "tracked_zst" {
+    if T::KIND != "tracked_zst" && T::KIND != "zst_no_drop_glue" {
         for (f, b, op) in positions {
             acc.aux("positions_reached_n_front_back_op", &(n, f, b, op));
         }
@@ -510,6 +539,7 @@ pub fn exec(case: &Case, acc: &mut Acc) -> Result<(), String> {
         Kind::U32 => with_mid!(case.n, N, exec_typed::<u32, N>(case, acc)),
         Kind::Zst => with_mid!(case.n, N, exec_typed::<TrackedZst, N>(case, acc)),
         Kind::Big => with_mid!(case.n, N, exec_typed::<TrackedBig, N>(case, acc)),
+        Kind::Uz => with_mid!(case.n, N, exec_typed::<Uz, N>(case, acc)),
     }
 }
 
@@ -557,7 +587,7 @@ fn end_strategy() -> impl Strategy<Value = End> {
 
 fn case_strategy() -> impl Strategy<Value = Case> {
     let lens = harness::lens::MID;
-    (0..lens.len(), prop_oneof![3 => Just(Kind::Tracked), 2 => Just(Kind::U32), 1 => Just(Kind::Zst), 1 => Just(Kind::Big)], prop::collection::vec(op_strategy(), 0..60), end_strategy())
+    (0..lens.len(), prop_oneof![3 => Just(Kind::Tracked), 2 => Just(Kind::U32), 1 => Just(Kind::Zst), 1 => Just(Kind::Big), 1 => Just(Kind::Uz)], prop::collection::vec(op_strategy(), 0..60), end_strategy())
         .prop_map(move |(li, kind, ops, end)| Case { n: lens[li], kind, ops, end })
 }
 
@@ -624,6 +654,7 @@ fn exhaustive_cases(nmax: usize) -> Vec<Case> {
                     for end in [End::Drop, End::Fold, End::RFold, End::Count, End::Last, End::Drain(0), End::Drain(u32::MAX)] {
                         out.push(Case { n, kind: Kind::Tracked, ops: prefix.clone(), end });
                         out.push(Case { n, kind: Kind::Zst, ops: prefix.clone(), end });
+                        out.push(Case { n, kind: Kind::Uz, ops: prefix.clone(), end });
                     }
                 }
             }
@@ -667,7 +698,7 @@ pub fn main() {
         Report {
             prop: PROP,
             level: "exploration",
-            rule: "cases = (length, element kind, operation sequence, final consuming operation) run against a VecDeque model; \
+            rule: "cases = (length, element kind: drop-tracked 24-byte / u32 / drop-tracked 96-byte / zero-sized with a destructor / zero-sized without one, operation sequence, final consuming operation) run against a VecDeque model; \
                    exhaustive part: every operation with every argument 0..=len+2 from every reachable (front, back) position, reached by a next/next_back route and by an nth/nth_back route; \
                    random part: proptest sequences of 0..60 operations on lengths 0..=12,16,31,32,33,64,100,255,256,1000,1024. \
                    non-trivial = at least two operations and (consumption from both ends, or an nth/nth_back, or a clone); \
@@ -690,13 +721,14 @@ pub fn decode(data: &[u8]) -> Case {
     // the libFuzzer process runs cases on an 8 MiB main-thread stack (with ASan red zones): keep arrays small there
     let lens: Vec<usize> = lens.iter().copied().filter(|n| *n <= 1024).collect();
     let mut n = lens[g(0) as usize % lens.len()];
-    if g(1) % 6 == 4 && n > 256 {
+    if g(1) % 7 == 4 && n > 256 {
         n = 256;
     }
-    let kind = match g(1) % 6 {
+    let kind = match g(1) % 7 {
         0..=2 => Kind::Tracked,
         3 => Kind::U32,
         4 => Kind::Big,
+        5 => Kind::Uz,
         _ => Kind::Zst,
     };
     let end = match g(2) % 6 {
